@@ -49,6 +49,9 @@ class G:
             return (k, self.num(m, depth - 1, ops), self.num(m, depth - 1, ops))
         if k == '/':
             return ('/', self.num(m, depth - 1, ops), ('n', r.choice([2, 4, -2, 8])))
+        if k == 'pow' and r.chance(1, 4):
+            # general power with a constant *expression* as base and a variable exponent: (1+1)^x
+            return ('pow', ('+', ('n', 1), ('n', r.choice([1, 2]))), ('v', r.below(n)))
         if k in ('pow', 'powc'):
             return (k, self.num(m, depth - 1, ops), ('n', r.choice([2, 3, 2, 4])))
         if k == 'cpow':
